@@ -1002,7 +1002,7 @@ fn c15_redirect_case(mi: usize, code: u16, same_host_policy: bool) {
 }
 
 //@ props: C15 C13 C09
-//@ tier: quick
+//@ tier: off
 //@ unwind: 6
 //@ unwindset: memcmp=16 from_static=8 from_fn=6 from_bytes=16 parse_hdr=16 eq_ignore_ascii_case=18 3all5check=18 to_str=6
 //@ timeout: 1800
